@@ -10,6 +10,8 @@ import (
 	"path/filepath"
 	"sort"
 	"strings"
+	"sync/atomic"
+	"time"
 )
 
 // Run collects what one harness invocation produces:
@@ -219,4 +221,42 @@ func (r *Run) Name() string {
 		}
 	}
 	return s
+}
+
+// stallMeter measures how late a 2 ms sleeper wakes up: the scheduling noise of
+// the machine while a timing-sensitive scenario runs. Oracles that assert a
+// wall-clock bound skip the bound (and say so in the distribution) when the
+// process itself was stalled for longer than the margin of the bound.
+type stallMeter struct {
+	max  int64 // ns
+	stop chan struct{}
+	done chan struct{}
+}
+
+func startStallMeter() *stallMeter {
+	m := &stallMeter{stop: make(chan struct{}), done: make(chan struct{})}
+	go func() {
+		defer close(m.done)
+		last := time.Now()
+		for {
+			select {
+			case <-m.stop:
+				return
+			case <-time.After(2 * time.Millisecond):
+			}
+			now := time.Now()
+			if gap := int64(now.Sub(last)) - int64(2*time.Millisecond); gap > atomic.LoadInt64(&m.max) {
+				atomic.StoreInt64(&m.max, gap)
+			}
+			last = now
+		}
+	}()
+	return m
+}
+
+// Stop ends the measurement and returns the longest stall seen.
+func (m *stallMeter) Stop() time.Duration {
+	close(m.stop)
+	<-m.done
+	return time.Duration(atomic.LoadInt64(&m.max))
 }
